@@ -330,3 +330,346 @@ Proof.
 Qed.
 
 End Sound.
+
+(* ------------------------------------------------------------------------------------- *)
+(* refutations of the two earlier designs of transformArg                                  *)
+(* ------------------------------------------------------------------------------------- *)
+Definition tcp_tf_builtin (t : tid) (s : bytes) : tres := apply_t t s.
+Definition tcp_sem1 (id : nat) : list tid := if Nat.eqb id 1 then [TLowercase] else [].
+
+(* before commit 95501c1 a hit was decided by the key alone. F09: two values of a repeated
+   argument name have the same key pointer; a different hash order (or an exclusion) gives the
+   second value the position the first had for an earlier rule. F10: MATCHED_VAR has the empty
+   key and position 0 whatever its content. *)
+Theorem tc_key_only_refuted :
+  exists cs : list (tc_call tid),
+    tc_calls_wf tid tcp_sem1 cs /\
+    fst (tc_eval_calls_gen tid tcp_tf_builtin false true cs tc_empty) <> tc_uncached_calls tid tcp_tf_builtin cs.
+Proof.
+  set (r := mk_rule [TLowercase] [1] false).
+  exists [mk_call r (mk_arg 41 0 (str "ONE"%string)) 1; mk_call r (mk_arg 41 0 (str "TWO"%string)) 1].
+  split.
+  - repeat constructor; cbn; intros k Hk; assert (k = 0) by lia; subst; reflexivity.
+  - vm_compute. discriminate.
+Qed.
+
+Theorem tc_key_only_stale_refuted :
+  exists cs : list (tc_call tid),
+    tc_calls_wf tid tcp_sem1 cs /\
+    fst (tc_eval_calls_gen tid tcp_tf_builtin false true cs tc_empty) <> tc_uncached_calls tid tcp_tf_builtin cs.
+Proof.
+  set (r := mk_rule [TLowercase] [1] false).
+  (* MATCHED_VAR (variable 7), empty key, position 0, content changed between two rules *)
+  exists [mk_call r (mk_arg 7 0 (str "TWO"%string)) 0; mk_call r (mk_arg 7 0 (str "THREE"%string)) 0].
+  split.
+  - repeat constructor; cbn; intros k Hk; assert (k = 0) by lia; subst; reflexivity.
+  - vm_compute. discriminate.
+Qed.
+
+(* before commit 508c5cb a rule resuming from a cached prefix appended to the cached entry's
+   slice. F37: three failing steps give an error slice of len 3 / cap 4; two different
+   continuations write the same slot; a later full hit reports the other rule's error. *)
+Definition tcp_tf_fail (t : nat) (s : bytes) : tres := mk_tres s false true.
+Definition tcp_sem_fail (id : nat) : list nat :=
+  match id with 1 => [0] | 2 => [0;1] | 3 => [0;1;2] | 4 => [0;1;2;3] | 5 => [0;1;2;4] | _ => [] end.
+
+Theorem tc_errs_alias_refuted :
+  exists cs : list (tc_call nat),
+    tc_calls_wf nat tcp_sem_fail cs /\
+    fst (tc_eval_calls_gen nat tcp_tf_fail true false cs tc_empty) <> tc_uncached_calls nat tcp_tf_fail cs.
+Proof.
+  set (r0 := mk_rule [0;1;2] [1;2;3] false).
+  set (r1 := mk_rule [0;1;2;3] [1;2;3;4] false).
+  set (r2 := mk_rule [0;1;2;4] [1;2;3;5] false).
+  set (a := mk_arg 41 0 (str "Hello"%string)).
+  exists [mk_call r0 a 0; mk_call r1 a 0; mk_call r2 a 0; mk_call r1 a 0].
+  split.
+  - repeat constructor; cbn; intros k Hk;
+      repeat (destruct k as [|k]; [reflexivity|]); lia.
+  - vm_compute. discriminate.
+Qed.
+
+(* the same calls on the code as it is now *)
+Example tc_errs_alias_repaired :
+  let r0 := mk_rule [0;1;2] [1;2;3] false in
+  let r1 := mk_rule [0;1;2;3] [1;2;3;4] false in
+  let r2 := mk_rule [0;1;2;4] [1;2;3;5] false in
+  let a := mk_arg 41 0 (str "Hello"%string) in
+  let cs := [mk_call r0 a 0; mk_call r1 a 0; mk_call r2 a 0; mk_call r1 a 0] in
+  fst (tc_eval_calls nat tcp_tf_fail cs tc_empty) = tc_uncached_calls nat tcp_tf_fail cs.
+Proof. vm_compute. reflexivity. Qed.
+
+(* ------------------------------------------------------------------------------------- *)
+(* the intern table                                                                        *)
+(* ------------------------------------------------------------------------------------- *)
+From Coq Require Import ZifyN ZifyBool ZifyNat.
+Ltac Zify.zify_post_hook ::= Z.div_mod_to_equations.
+Local Open Scope N_scope.
+
+Definition itp_digit (c : N) : Prop := 48 <= c /\ c <= 57.
+Fixpoint itp_val (ds : list N) : N := match ds with [] => 0 | d :: r => (d - 48) + 10 * itp_val r end.
+
+Lemma itp_itoa_fuel_spec : forall f n acc, n < 2 ^ N.of_nat f ->
+  exists ds, itoa_fuel f n acc = rev ds ++ acc /\ Forall itp_digit ds /\ itp_val ds = n.
+Proof.
+  induction f as [|f IH]; intros n acc Hn.
+  - exists []. cbn in *. split; [reflexivity|]. split; [constructor|]. cbn. lia.
+  - cbn [itoa_fuel]. destruct (n / 10 =? 0) eqn:E.
+    + apply N.eqb_eq in E. exists [48 + n mod 10]. split; [reflexivity|]. split.
+      * constructor; [|constructor]. unfold itp_digit. pose proof (N.mod_upper_bound n 10). lia.
+      * cbn [itp_val]. pose proof (N.div_mod' n 10). lia.
+    + apply N.eqb_neq in E.
+      assert (Hd : n / 10 < 2 ^ N.of_nat f).
+      { apply N.div_lt_upper_bound; [lia|]. rewrite Nat2N.inj_succ, N.pow_succ_r' in Hn. lia. }
+      destruct (IH (n / 10) ((48 + n mod 10) :: acc) Hd) as (ds & E1 & E2 & E3).
+      exists ((48 + n mod 10) :: ds). split; [|split].
+      * rewrite E1. cbn [rev]. rewrite <- app_assoc. reflexivity.
+      * constructor; [|exact E2]. unfold itp_digit. pose proof (N.mod_upper_bound n 10). lia.
+      * cbn [itp_val]. rewrite E3. pose proof (N.div_mod' n 10). lia.
+Qed.
+
+Lemma itp_itoa_spec n : exists ds, itoa n = rev ds /\ Forall itp_digit ds /\ itp_val ds = n.
+Proof.
+  unfold itoa.
+  assert (H : n < 2 ^ N.of_nat (S (N.to_nat (N.log2 n)))).
+  { rewrite Nat2N.inj_succ, N2Nat.id. destruct (N.eq_dec n 0) as [->|NZ]; [cbn; lia|].
+    apply N.log2_spec. lia. }
+  destruct (itp_itoa_fuel_spec _ n [] H) as (ds & E1 & E2 & E3).
+  exists ds. rewrite app_nil_r in E1. auto.
+Qed.
+
+Lemma itp_itoa_inj a b : itoa a = itoa b -> a = b.
+Proof.
+  destruct (itp_itoa_spec a) as (da & Ea & _ & Va). destruct (itp_itoa_spec b) as (db & Eb & _ & Vb).
+  intro H. rewrite Ea, Eb in H. apply (f_equal (@rev N)) in H. rewrite !rev_involutive in H. congruence.
+Qed.
+
+Lemma itp_itoa_no_plus n : ~ In it_plus (itoa n).
+Proof.
+  destruct (itp_itoa_spec n) as (ds & E & D & _). rewrite E. intro H. apply in_rev in H.
+  rewrite Forall_forall in D. specialize (D _ H). unfold itp_digit, it_plus in D. lia.
+Qed.
+
+Lemma itp_app_sep_inj {A} (x : A) : forall l1 l2 r1 r2, ~ In x l1 -> ~ In x l2 ->
+  l1 ++ x :: r1 = l2 ++ x :: r2 -> l1 = l2 /\ r1 = r2.
+Proof.
+  induction l1 as [|a l1 IH]; intros [|b l2] r1 r2 H1 H2 E; cbn in *.
+  - injection E as <-. auto.
+  - injection E as <- _. exfalso. apply H2. auto.
+  - injection E as -> _. exfalso. apply H1. auto.
+  - injection E as <- E. destruct (IH l2 r1 r2) as [-> ->]; auto.
+Qed.
+
+(* fmt.Sprintf("%d+%s", id, name) determines id and name *)
+Lemma it_render_inj p n q m : it_render p n = it_render q m -> p = q /\ n = m.
+Proof.
+  unfold it_render. intro H. apply itp_app_sep_inj in H; try apply itp_itoa_no_plus.
+  destruct H as [H1 H2]. apply itp_itoa_inj in H1. split; [lia | exact H2].
+Qed.
+
+Lemma it_render_not_nil p n : it_render p n <> [].
+Proof. unfold it_render. destruct (itoa (N.of_nat p)); discriminate. Qed.
+
+Local Open Scope nat_scope.
+
+Lemma itp_index_some name : forall tb i id, it_index name tb i = Some id ->
+  i <= id /\ id - i < length tb /\ nth (id - i) tb [] = name.
+Proof.
+  induction tb as [|x tb IH]; intros i id H; cbn [it_index] in H; [discriminate|].
+  destruct (bytes_eqb x name) eqn:E.
+  - injection H as <-. apply bytes_eqb_eq in E. rewrite Nat.sub_diag. cbn. repeat split; auto; lia.
+  - apply IH in H as (H1 & H2 & H3). cbn [length]. replace (id - i) with (S (id - S i)) by lia.
+    cbn [nth]. repeat split; auto; lia.
+Qed.
+
+Lemma itp_index_none name : forall tb i, it_index name tb i = None -> forall j, j < length tb -> nth j tb [] <> name.
+Proof.
+  induction tb as [|x tb IH]; intros i H j Hj; cbn [length] in Hj; [lia|].
+  cbn [it_index] in H. destruct (bytes_eqb x name) eqn:E; [discriminate|].
+  destruct j as [|j]; cbn [nth].
+  - apply bytes_eqb_neq. exact E.
+  - apply (IH (S i) H). lia.
+Qed.
+
+(* ghost state: the chain (list of names as written) every id stands for *)
+Definition it_ok (tb : it_table) (ch : list (list bytes)) : Prop :=
+  length ch = length tb /\ 0 < length tb /\ nth 0 tb [] = [] /\ nth 0 ch [] = [] /\
+  forall i, 0 < i < length tb -> exists p n, p < i /\ nth i tb [] = it_render p n /\ nth i ch [] = nth p ch [] ++ [n].
+
+Definition it_ext (ch ch' : list (list bytes)) : Prop :=
+  length ch <= length ch' /\ forall i, i < length ch -> nth i ch' [] = nth i ch [].
+
+Lemma it_ext_refl ch : it_ext ch ch.
+Proof. split; auto. Qed.
+Lemma it_ext_trans a b c : it_ext a b -> it_ext b c -> it_ext a c.
+Proof. intros [L1 H1] [L2 H2]. split; [lia|]. intros i Hi. rewrite H2 by lia. apply H1. exact Hi. Qed.
+
+Lemma it_ok_init : it_ok it_init [[]].
+Proof. unfold it_ok, it_init. cbn. repeat split; auto. intros i Hi. lia. Qed.
+
+Lemma it_intern_ok tb ch cur name id tb' :
+  it_ok tb ch -> cur < length tb -> it_intern tb cur name = (id, tb') ->
+  exists ch', it_ok tb' ch' /\ it_ext ch ch' /\ id < length tb' /\ length tb <= length tb' /\
+              nth id ch' [] = nth cur ch [] ++ [name].
+Proof.
+  intros (Hl & Hp & H0 & Hc0 & Hall) Hcur H. unfold it_intern, it_intern_gen in H.
+  destruct (it_index (it_render cur name) tb 0) as [j|] eqn:E.
+  - injection H as <- <-. apply itp_index_some in E as (_ & Hj & Hn). rewrite Nat.sub_0_r in *.
+    exists ch. split; [unfold it_ok; auto|]. split; [apply it_ext_refl|]. split; [exact Hj|]. split; [lia|].
+    assert (j <> 0). { intros ->. rewrite H0 in Hn. symmetry in Hn. apply it_render_not_nil in Hn. exact Hn. }
+    destruct (Hall j ltac:(lia)) as (p & n & Hpj & Hr & Hch). rewrite Hn in Hr.
+    apply it_render_inj in Hr as [-> ->]. exact Hch.
+  - injection H as <- <-. pose proof (itp_index_none _ _ _ E) as Hnone.
+    exists (ch ++ [nth cur ch [] ++ [name]]). split; [|split; [|split; [|split]]].
+    + unfold it_ok. rewrite !app_length. cbn [length]. split; [lia|]. split; [lia|].
+      split; [rewrite app_nth1 by lia; exact H0|]. split; [rewrite app_nth1 by lia; exact Hc0|].
+      intros i Hi. destruct (Nat.eq_dec i (length tb)) as [->|Hne].
+      * exists cur, name. split; [exact Hcur|]. split; [rewrite nth_middle; reflexivity|].
+        rewrite <- Hl at 1. rewrite nth_middle. rewrite app_nth1 by lia. reflexivity.
+      * destruct (Hall i ltac:(lia)) as (p & n & Hpi & Hr & Hch). exists p, n. split; [exact Hpi|].
+        split; [rewrite app_nth1 by lia; exact Hr|]. rewrite !app_nth1 by lia. exact Hch.
+    + split; [rewrite app_length; lia|]. intros i Hi. rewrite app_nth1 by lia. reflexivity.
+    + rewrite app_length. cbn. lia.
+    + rewrite app_length. lia.
+    + rewrite <- Hl. rewrite nth_middle. reflexivity.
+Qed.
+
+(* what is known about a rule under construction / a compiled rule *)
+Definition it_rule_ok (tb : it_table) (ch : list (list bytes)) (r : it_rule) : Prop :=
+  ir_cur r < length tb /\ nth (ir_cur r) ch [] = ir_names r /\
+  length (ir_pids r) = length (ir_names r) /\
+  forall k, k < length (ir_names r) ->
+    nth k (ir_pids r) 0 < length tb /\ nth (nth k (ir_pids r) 0) ch [] = firstn (S k) (ir_names r).
+
+Lemma it_rule_ok_ext tb ch tb' ch' r :
+  it_rule_ok tb ch r -> length ch = length tb -> length tb <= length tb' -> it_ext ch ch' -> it_rule_ok tb' ch' r.
+Proof.
+  intros (H1 & H2 & H3 & H4) Hl Hle [He1 He2]. split; [lia|]. split; [rewrite He2 by lia; exact H2|].
+  split; [exact H3|]. intros k Hk. destruct (H4 k Hk) as [Ha Hb]. split; [lia|]. rewrite He2 by lia. exact Hb.
+Qed.
+
+Lemma it_rule0_ok tb ch : it_ok tb ch -> it_rule_ok tb ch it_rule0.
+Proof. intros (Hl & Hp & H0 & Hc0 & _). unfold it_rule_ok, it_rule0. cbn. repeat split; auto; lia. Qed.
+
+Lemma it_add_t_ok tb ch r name tb' r' :
+  it_ok tb ch -> it_rule_ok tb ch r -> it_add_t tb r name = (tb', r') ->
+  exists ch', it_ok tb' ch' /\ it_ext ch ch' /\ length tb <= length tb' /\ it_rule_ok tb' ch' r'.
+Proof.
+  intros Hok Hr H. unfold it_add_t, it_add_t_gen in H.
+  destruct (bytes_eqb name (str "none")).
+  - injection H as <- <-. exists ch. split; [exact Hok|]. split; [apply it_ext_refl|]. split; [lia|]. apply it_rule0_ok. exact Hok.
+  - destruct (it_intern_gen false tb (ir_cur r) name) as [id tb1] eqn:E. injection H as <- <-.
+    pose proof Hr as (Hcur & Hname & Hlen & Hk).
+    destruct (it_intern_ok tb ch (ir_cur r) name id tb1 Hok Hcur E) as (ch' & Hok' & Hext & Hid & Hle & Hch).
+    exists ch'. split; [exact Hok'|]. split; [exact Hext|]. split; [exact Hle|].
+    pose proof Hok as (Hl & _).
+    unfold it_rule_ok. cbn [ir_cur ir_names ir_pids]. split; [exact Hid|].
+    split; [rewrite Hch, Hname; reflexivity|]. split; [rewrite !app_length; cbn; lia|].
+    intros k Hk'. rewrite app_length in Hk'. cbn [length] in Hk'.
+    destruct (Nat.eq_dec k (length (ir_names r))) as [->|Hne].
+    + rewrite <- Hlen at 1 2. rewrite nth_middle. split; [exact Hid|]. rewrite Hch, Hname.
+      rewrite firstn_all2; [reflexivity|]. rewrite app_length. cbn. lia.
+    + assert (Hlt : k < length (ir_names r)) by lia. destruct (Hk k Hlt) as [Ha Hb].
+      rewrite app_nth1 by lia. split; [lia|]. destruct Hext as [_ He]. rewrite He by lia. rewrite Hb.
+      rewrite firstn_app. replace (S k - length (ir_names r)) with 0 by lia. cbn [firstn]. rewrite app_nil_r. reflexivity.
+Qed.
+
+Lemma it_add_ts_ok : forall names tb ch r tb' r',
+  it_ok tb ch -> it_rule_ok tb ch r -> it_add_ts tb r names = (tb', r') ->
+  exists ch', it_ok tb' ch' /\ it_ext ch ch' /\ length tb <= length tb' /\ it_rule_ok tb' ch' r'.
+Proof.
+  induction names as [|n names IH]; intros tb ch r tb' r' Hok Hr H.
+  - cbn in H. injection H as <- <-. exists ch. split; [exact Hok|]. split; [apply it_ext_refl|]. split; [lia|exact Hr].
+  - unfold it_add_ts in *. cbn [it_add_ts_gen] in H.
+    destruct (it_add_t_gen false tb r n) as [tb1 r1] eqn:E1.
+    destruct (it_add_t_ok tb ch r n tb1 r1 Hok Hr E1) as (ch1 & Hok1 & Hext1 & Hle1 & Hr1).
+    destruct (IH tb1 ch1 r1 tb' r' Hok1 Hr1 H) as (ch2 & Hok2 & Hext2 & Hle2 & Hr2).
+    exists ch2. split; [exact Hok2|]. split; [eapply it_ext_trans; eauto|]. split; [lia|exact Hr2].
+Qed.
+
+Theorem it_compile_ok : forall rules tb ch tb' rs,
+  it_ok tb ch -> it_compile tb rules = (tb', rs) ->
+  exists ch', it_ok tb' ch' /\ it_ext ch ch' /\ length tb <= length tb' /\
+              Forall (fun rm => it_rule_ok tb' ch' (fst rm)) rs.
+Proof.
+  induction rules as [|[ns m] rules IH]; intros tb ch tb' rs Hok H.
+  - cbn in H. injection H as <- <-. exists ch. split; [exact Hok|]. split; [apply it_ext_refl|]. split; [lia|constructor].
+  - unfold it_compile in *. cbn [it_compile_gen] in H.
+    destruct (it_add_ts_gen false tb it_rule0 ns) as [tb1 r1] eqn:E1.
+    destruct (it_compile_gen false tb1 rules) as [tb2 rs2] eqn:E2. injection H as <- <-.
+    destruct (it_add_ts_ok ns tb ch it_rule0 tb1 r1 Hok (it_rule0_ok _ _ Hok) E1) as (ch1 & Hok1 & Hext1 & Hle1 & Hr1).
+    destruct (IH tb1 ch1 tb2 rs2 Hok1 E2) as (ch2 & Hok2 & Hext2 & Hle2 & Hrs).
+    exists ch2. split; [exact Hok2|]. split; [eapply it_ext_trans; eauto|]. split; [lia|].
+    constructor; [|exact Hrs]. cbn [fst]. destruct Hok1 as (Hl1 & _).
+    eapply it_rule_ok_ext; eauto.
+Qed.
+
+(* two prefixes (of any two rules of a rule set, compiled after any history of the global
+   table) get the same id only if they are the same list of names *)
+Theorem it_intern_injective : forall rules tb ch tb' rs,
+  it_ok tb ch -> it_compile tb rules = (tb', rs) ->
+  forall rm1 rm2 k1 k2, In rm1 rs -> In rm2 rs ->
+    k1 < length (ir_names (fst rm1)) -> k2 < length (ir_names (fst rm2)) ->
+    nth k1 (ir_pids (fst rm1)) 0 = nth k2 (ir_pids (fst rm2)) 0 ->
+    firstn (S k1) (ir_names (fst rm1)) = firstn (S k2) (ir_names (fst rm2)).
+Proof.
+  intros rules tb ch tb' rs Hok H rm1 rm2 k1 k2 I1 I2 L1 L2 E.
+  destruct (it_compile_ok rules tb ch tb' rs Hok H) as (ch' & _ & _ & _ & Hall).
+  rewrite Forall_forall in Hall.
+  destruct (Hall _ I1) as (_ & _ & _ & H1). destruct (Hall _ I2) as (_ & _ & _ & H2).
+  destruct (H1 k1 L1) as [_ <-]. destruct (H2 k2 L2) as [_ <-]. rewrite E. reflexivity.
+Qed.
+
+(* compiled rules are well-formed for the cache theorems: one meaning function for all of them *)
+Theorem it_compile_wf (T : Type) (reg : bytes -> T) : forall rules tb ch tb' rs,
+  it_ok tb ch -> it_compile tb rules = (tb', rs) ->
+  exists sem : nat -> list T, Forall (fun rm => tc_rule_wf T sem (it_to_rule reg rm)) rs.
+Proof.
+  intros rules tb ch tb' rs Hok H.
+  destruct (it_compile_ok rules tb ch tb' rs Hok H) as (ch' & _ & _ & _ & Hall).
+  exists (fun id => map reg (nth id ch' [])).
+  eapply Forall_impl; [|exact Hall]. intros rm (_ & _ & Hlen & Hk).
+  unfold tc_rule_wf, it_to_rule. cbn [r_ts r_pids]. rewrite map_length. split; [exact Hlen|].
+  intros k Hlt. destruct (Hk k Hlt) as [_ ->]. rewrite firstn_map. reflexivity.
+Qed.
+
+(* the design before commit 8fe3f95 ("+"-joined names): a registered name containing '+' gets
+   the id of a two-element chain (F38) *)
+Theorem it_intern_plus_refuted :
+  exists rules : list (list bytes * bool),
+    let rs := snd (it_compile_gen true it_init rules) in
+    exists rm1 rm2, In rm1 rs /\ In rm2 rs /\
+      nth 1 (ir_pids (fst rm1)) 0 = nth 0 (ir_pids (fst rm2)) 0 /\
+      firstn 2 (ir_names (fst rm1)) <> firstn 1 (ir_names (fst rm2)).
+Proof.
+  exists [([str "lowercase"%string; str "trim"%string], false); ([str "lowercase+trim"%string], false)].
+  cbv zeta.
+  set (rs := snd (it_compile_gen true it_init _)). vm_compute in rs.
+  eexists; eexists. split; [left; reflexivity|]. split; [right; left; reflexivity|].
+  split; [reflexivity|]. cbn. discriminate.
+Qed.
+
+(* ------------------------------------------------------------------------------------- *)
+(* end to end: rules compiled through the intern table, evaluated over any phases          *)
+(* ------------------------------------------------------------------------------------- *)
+Lemma it_history_ok hist : exists ch, it_ok (fst (it_compile it_init hist)) ch.
+Proof.
+  destruct (it_compile it_init hist) as [tb rs] eqn:E.
+  destruct (it_compile_ok hist it_init [[]] tb rs it_ok_init E) as (ch & H & _). exists ch. exact H.
+Qed.
+
+Theorem tc_compiled_phases_sound (T : Type) (tf : T -> bytes -> tres) (reg : bytes -> T) :
+  forall (hist rules : list (list bytes * bool)) tb' rs,
+  it_compile (fst (it_compile it_init hist)) rules = (tb', rs) ->
+  forall (ps : list (list (tc_call T))) st,
+  Forall (Forall (fun c => In (c_rule c) (map (it_to_rule reg) rs))) ps ->
+  fst (tc_eval_phases T tf ps st) = map (tc_uncached_calls T tf) ps.
+Proof.
+  intros hist rules tb' rs H ps st Hps.
+  destruct (it_history_ok hist) as (ch & Hok).
+  destruct (it_compile_wf T reg rules _ ch tb' rs Hok H) as (sem & Hwf).
+  apply (tc_eval_phases_sound T tf sem).
+  eapply Forall_impl; [|exact Hps]. intros p Hp. unfold tc_calls_wf.
+  eapply Forall_impl; [|exact Hp]. intros c Hc. cbv beta in Hc.
+  apply in_map_iff in Hc as (rm & <- & Hin). rewrite Forall_forall in Hwf. apply Hwf. exact Hin.
+Qed.
